@@ -61,7 +61,7 @@ def boundary_grid(run):
                 ("accumulate", ("add2",), sc.NOSEED), ("accumulate", ("add2",), 5), ("reverse",), ("distinct", None),
                 ("indexOf", 2), ("lastIndexOf", 2), ("indexOf", 7), ("any", None), ("all", None), ("toSet",),
                 ("orderBy", ("id",), False), ("groupBy", ("mod", 2), None), ("dictFromItems",), ("cycle",),
-                ("flatten",), ("defaultIfEmpty", (7,)), ("isList",), ("isIterable",), ("isSet",), ("isDict",), ("in", 2), ("in", None)]
+                ("flatten",), ("defaultIfEmpty", (7,)), ("joinRange", 1, 4, ("gt2",), ("pair2",)), ("join", (1, 2, 3), ("eq2",), ("add2",)), ("isList",), ("isIterable",), ("isSet",), ("isDict",), ("in", 2), ("in", None)]
         for s in sts:
             if None in l and s[0] in ("sum", "min", "max", "aggregate", "accumulate", "groupBy", "enumerate") and s[0] != "enumerate":
                 continue
@@ -202,8 +202,7 @@ def src_from_json(j):
 # O: the laws, evaluated on the implementation
 # ------------------------------------------------------------------------------------------
 def ev(text, l, kind="tuple"):
-    o = sc.evaluate(text, list(l) if kind == "tuple" else iter(list(l)))
-    return o
+    return sc.evaluate_fresh(text, lambda: list(l) if kind == "tuple" else iter(list(l)))
 
 
 def val(o):
